@@ -201,8 +201,48 @@ fn score_position<A: Abc, C: PositiveLength>(rec: &mut Recorder, rng: &mut impl 
     rec.class("score_position");
 }
 
+/// Striped sequences produced by `StripedSequence::sample` (not by striping): the logical sequence is read back
+/// through `Index`, then scored like any other; cells past the last valid position must still be -inf when the
+/// wildcard column is (second sentence of C07, checked by Trace_C01 as PadInv).
+pub fn sampled<A: Abc>(rec: &mut Recorder, rng: &mut impl Rng, l: usize, from_sample: bool)
+where
+    Pipeline<A, lightmotif::pli::dispatch::Dispatch>: Score<f32, A, U32>,
+{
+    use rand::SeedableRng;
+    let m = rng.gen_range(1..=6);
+    let cells = random_pssm::<A>(rng, m, 0.0, true, 20);
+    let pssm = build_pssm::<A>(&cells);
+    let r = guarded(|| {
+        let srng = rand::rngs::StdRng::seed_from_u64(rng.gen());
+        let mut seq = if from_sample {
+            StripedSequence::<A, U32>::sample(srng, Background::<A>::uniform(), l)
+        } else {
+            let rk = random_ranks::<A>(rng, l, 0.05);
+            Pipeline::<A, _>::dispatch().stripe(A::syms(&rk))
+        };
+        let ranks: Vec<usize> = (0..seq.len()).map(|i| lightmotif::abc::Symbol::as_index(&seq[i])).collect();
+        seq.configure(&pssm);
+        let sc = pssm.score(&seq);
+        let mx: Vec<Value> = match sc.max() { Some(x) => vec![grid(x, GS)], None => vec![] };
+        (ranks, sc.matrix().rows(), sc.max_index(), cells_of(&sc), mx)
+    });
+    rec.reset();
+    rec.class(if from_sample { "padding_of_sampled_sequence" } else { "padding_of_striped_sequence" });
+    let origin = if from_sample { "StripedSequence::sample" } else { "stripe" };
+    match r {
+        Ok((ranks, nrows, max_index, cells_v, mx)) => {
+            let rr = (ranks.len() + 31) / 32;
+            rec.emit(json!({"ev":"padding","origin":origin,"abc":A::NAME,"C":32,"K":A::KK,
+                "seq":ranks,"pssm":cells,"a":0,"b":rr,"ret":"ok","nrows":nrows,"max_index":max_index,"cells":cells_v,"max":mx}));
+        }
+        Err(msg) => rec.emit(json!({"ev":"padding","origin":origin,"abc":A::NAME,"C":32,"K":A::KK,
+                "seq":[],"pssm":cells,"a":0,"b":0,"ret":"panic","msg":msg,"nrows":0,"max_index":0,"cells":[],"max":[]})),
+    }
+}
+
 pub fn record(rec: &mut Recorder, seed: u64, thorough: bool) {
     let mut r = rng(seed, 1);
+
     macro_rules! generic {
         ($a:ty, $c:ty) => {{
             force(None);
